@@ -147,10 +147,11 @@ static void child_run(void *ud) {
     L->m4ri_mmc_cleanup();
     size_t live1 = heap_live_count();
     uint64_t dig1 = heap_live_digest();
-    if (!viol && (live1 != live0 || dig1 != dig0) && really_leaked(L)) {
-      fprintf(stderr, "ledger error: %zu live library blocks after the history prefix, %zu expected\n", live1, live0);
-      heap_iter_live(dump_live, &viol_site);
-      flag(HX_LEAK, k, -2, "library allocations outlive a call of the history prefix although everything it returned was freed");
+    if (!viol && (live1 != live0 || dig1 != dig0)) {
+      fprintf(stderr, "ledger: %zu live library blocks after the history prefix, %zu before\n", live1, live0);
+      heap_iter_live(dump_live, &viol_site); /* who allocated them: recorded before the finalisation below replaces the code book blocks */
+      if (really_leaked(L)) flag(HX_LEAK, k, -2, "library allocations outlive a call of the history prefix although everything it returned was freed");
+      else { viol_site = 0; leak_bt[0] = 0; }
     }
     /* the probe call */
     sim_shared->aux[2] = 1;
@@ -186,11 +187,13 @@ static void child_run(void *ud) {
       if (room < g_header_room) { char b[140]; snprintf(b, sizeof b, "header pool has room for %d headers before it grows, %d on the pristine library: a slot is still occupied although the program freed everything", room, g_header_room); flag(HX_HEADER_SLOT_LEAK, k, -1, b); }
     }
     L->m4ri_mmc_cleanup();
-    if (!viol && (heap_live_count() != live0 || heap_live_digest() != dig0) && really_leaked(L)) {
-      fprintf(stderr, "ledger error: %zu live library blocks, %zu expected\n", heap_live_count(), live0);
+    if (!viol && (heap_live_count() != live0 || heap_live_digest() != dig0)) {
+      fprintf(stderr, "ledger: %zu live library blocks, %zu before\n", heap_live_count(), live0);
       heap_iter_live(dump_live, &viol_site);
-      flag(HX_LEAK, k, -1, "library allocations outlive the call although everything it returned was freed");
-      if (k > 0) sim_shared->aux[7] = 1; /* the same call released everything in world 0: whether it leaks depends on heap content / history -> C10 */
+      if (really_leaked(L)) {
+        flag(HX_LEAK, k, -1, "library allocations outlive the call although everything it returned was freed");
+        if (k > 0) sim_shared->aux[7] = 1; /* the same call released everything in world 0: whether it leaks depends on heap content / history -> C10 */
+      } else { viol_site = 0; leak_bt[0] = 0; }
     }
   }
   free(copy);
